@@ -1,3 +1,9 @@
 import XProofs.Properties.C14
 #print axioms Properties.C14.C14_rows_rect_partial
 #print axioms Properties.C14.C14_source_unchanged
+#print axioms Properties.C14.C14_copy_rect
+#print axioms Properties.C14.C14_mul_rect
+#print axioms Properties.C14.C14_add_rect
+#print axioms Properties.C14.C14_cols_rect
+#print axioms Properties.C14.C14_step_rect
+#print axioms Properties.C14.C14_chain_rect
